@@ -150,6 +150,30 @@ def run(tier):
     if sorted(a for a, b in z) != [0, 1, 2, 3] or sorted(b for a, b in z) != [0, 1, 2, 3]:
         failures.append(dict(kind='history', finding_id='F9', summary=f'zip(rs, rs) of one reshuffle object yields {z}: columns are not permutations',
                              config=dict(kind='selfzip')))
+    # a plain copy() of a pipeline that names one reshuffle object several times (zip, intersperse, key_zip, concatenate) holds a copy
+    # of its own per position: its iterations are permutations again (the uncopied self-zip above is the known finding F9)
+    for _ in range(300 if big else 40):
+        n = r.randint(1, 6)
+        rs = ld.new({f'key{i}': i for i in range(n)}).shuffle(True, rng=np.random.RandomState(r.randint(0, 10 ** 6)))
+        how = r.choice(['zip', 'intersperse', 'zip3', 'zip_map', 'key_zip?'])
+        try:
+            if how == 'zip': c = ld.zip(rs, rs).copy()
+            elif how == 'zip3': c = ld.zip(rs, rs, rs).copy()
+            elif how == 'zip_map': c = ld.zip(rs, rs).map(lambda t: t).copy()
+            elif how == 'intersperse': c = ld.intersperse(rs, rs).copy()
+            else: c = ld.zip(rs.map(int), rs).copy()
+            for epoch in range(2):
+                out = list(c)
+                if how == 'intersperse':
+                    ok = collections.Counter(int(x) for x in out) == collections.Counter(list(range(n)) * 2)
+                else:
+                    ok = all(sorted(int(t[j]) for t in out) == list(range(n)) for j in range(len(out[0]) if out else 0)) and len(out) == n
+                if not ok:
+                    failures.append(dict(kind='history', summary=f'copy() of {how} over ONE reshuffle object named several times (n={n}), epoch {epoch + 1}: {out} - every position must contribute a permutation of the {n} examples'[:500],
+                                         config=dict(kind='selfcopy', n=n, how=how)))
+                    break
+        except Exception as e:
+            failures.append(dict(kind='history', summary=f'copy() of {how} over one reshuffle object raised {type(e).__name__}: {e}'[:300], config=dict(kind='selfcopy', n=n, how=how)))
     # (b) local shuffle
     lcases, lmeta = [], []
     for _ in range(3000 if big else 300):
